@@ -40,7 +40,7 @@ def run(sc, tier, replay):
     V = vlib.Verdicts(PID)
     thorough = tier == "thorough"
     binary = vlib.go_build(sc, "./cmd/fed", "fed")
-    off = ["noroottypename", "nodupkey", "nodirid", "nofragdirs"]
+    off = ["nodupkey", "nodirid", "nofragdirs"]
     strata = {"core": (off + ["oddids", "richargs"], 0.7), "abstract": (off + ["abstract"], 0.3)}
     total_worlds, ops, repeats = (1400, 12, 25) if thorough else (140, 10, 6)
     stats = {}
